@@ -91,7 +91,13 @@ type pointReader struct {
 
 func (s *pointReader) Read(p []byte) (int, error) {
 	s.point()
-	return s.r.Read(p)
+	n, err := s.r.Read(p)
+	if len(p) > 1 {
+		// bulk reads go through staging buffers: the moment between "the source has filled the
+		// buffer" and "the library consumes it" is a scheduling point too
+		s.point()
+	}
+	return n, err
 }
 
 var c14Text = textBytes(77, 260)
@@ -231,6 +237,8 @@ func c14Scenarios() []c14Scn {
 		// writer with the same properties: state shared per Properties value shows here
 		{"lzma2W(raw first chunk)|lzma2W same props", []c14Body{c14LZMA2Writer(lzma.Writer2Config{DictCap: 4096}, append(append([]byte(nil), randBytes(79, 60)...), t[:60]...)), c14LZMA2Writer(lzma.Writer2Config{DictCap: 4096}, t[30:150])}},
 		{"xzW(CRC32, aligned block)|xzW(CRC32)", []c14Body{c14XZWriter(xz.WriterConfig{DictCap: 4096, CheckSum: xz.CRC32}, randBytes(80, 40)), c14XZWriter(xz.WriterConfig{DictCap: 4096, CheckSum: xz.CRC32}, randBytes(80, 42))}},
+		// readers decoding uncompressed chunks (bulk copies through staging buffers)
+		{"xzR(raw chunks)|lzma2R(raw chunks)", []c14Body{c14XZReader(mustLibXZ(XZCfg{DictCap: 4096, Check: 1, BlockSize: 100}, randBytes(84, 180))), c14LZMA2Reader(mustLibLZMA2(L2Cfg{DictCap: 4096}, randBytes(85, 160), []L2Step{{"w", 70}, {"f", 0}}))}},
 		{"lzmaW|lzmaW same props (bufio)", []c14Body{c14LZMAWriter(lzma.WriterConfig{DictCap: 4096}, t[:90], false), c14LZMAWriter(lzma.WriterConfig{DictCap: 4096}, t[10:100], false)}},
 	}
 }
@@ -268,6 +276,14 @@ func c14Menu() []c14Body {
 			return append(out, []byte("|"+errStr(err))...)
 		}},
 	}
+	rawx := mustLibXZ(XZCfg{DictCap: 4096, Check: 1, BlockSize: 100}, randBytes(84, 180))
+	m = append(m, c14XZReader(rawx),
+		// same lc+lp, different pb / same literal table size, different split
+		c14XZWriter(xz.WriterConfig{DictCap: 4096, Properties: &lzma.Properties{LC: 3, LP: 0, PB: 0}}, t[:200]),
+		c14XZWriter(xz.WriterConfig{DictCap: 4096, Properties: &lzma.Properties{LC: 2, LP: 1, PB: 2}}, t[:200]),
+		c14XZWriter(xz.WriterConfig{DictCap: 4096, Properties: &lzma.Properties{LC: 0, LP: 2, PB: 4}}, t[:150]),
+		c14LZMAWriter(lzma.WriterConfig{DictCap: 4096, Properties: &lzma.Properties{LC: 3, LP: 0, PB: 4}}, t[:90], false),
+	)
 	// four CRC32 writers with raw payloads of consecutive lengths: one of them has a block whose
 	// compressed size is a multiple of four (no block padding)
 	for n := 40; n < 44; n++ {
@@ -441,7 +457,7 @@ func runC14(r *core.Run) {
 	if th {
 		bound = 3
 	}
-	r.Rule = fmt.Sprintf("2-3 goroutine bodies, each driving its own xz/LZMA/LZMA2 writer or reader, under a cooperative scheduler; scheduling points: every public call boundary, every call-back into the harness' sink/source (one per sink write / source read, the decoders read byte by byte) and every sync/sync-atomic operation of the repository (routed through an overlay shim); DFS with iterative preemption bounding (bound %d); oracle: every thread's result equals its solo run, outputs decode with the reference, solo runs first and last are byte-identical; a history check: every ordered pair of a menu of 22 bodies (all writer kinds, check types, raw first chunks, readers) in a fresh process, the second result must equal its result in a pristine process; plus a separate free-running pass of the same bodies under the race detector with GOMAXPROCS 2/4/16. states = scenarios x preemption counts; non-trivial = distinct (scenario, schedule)", bound)
+	r.Rule = fmt.Sprintf("2-3 goroutine bodies, each driving its own xz/LZMA/LZMA2 writer or reader, under a cooperative scheduler; scheduling points: every public call boundary, every call-back into the harness' sink/source (one per sink write / source read, the decoders read byte by byte) and every sync/sync-atomic operation of the repository (routed through an overlay shim); DFS with iterative preemption bounding (bound %d); oracle: every thread's result equals its solo run, outputs decode with the reference, solo runs first and last are byte-identical; a history check: every ordered pair of a menu of 27 bodies (all writer kinds, check types, raw first chunks, readers) in a fresh process, the second result must equal its result in a pristine process; plus a separate free-running pass of the same bodies under the race detector with GOMAXPROCS 2/4/16. states = scenarios x preemption counts; non-trivial = distinct (scenario, schedule)", bound)
 	if shimCalls != nil {
 		r.Extra("sync_shim_overlay", "active")
 	} else {
